@@ -937,9 +937,17 @@ class Table:
         # Read through OUR backend rather than pyarrow's S3 filesystem (#54).
         with data_file_manager.open_parquet_source(data_file.file_path) as src:
             if compute_expr is not None:
-                # pyarrow applies `filters` against all needed columns during the
-                # scan and returns only `columns`, so pushdown is correct here.
-                return pq.read_table(src, columns=columns, filters=compute_expr)
+                # Filter AFTER the read, exactly like the verified path above.
+                # Handing `filters=` to the parquet reader lets it skip row
+                # groups from min/max statistics, which ignore NaN (a NaN row
+                # matching `x != c` was dropped) and mis-evaluate is_in on a
+                # single-valued float row group (matching rows were dropped):
+                # the two paths returned different rows for the same filter.
+                table = pq.read_table(src)
+                table = table.filter(compute_expr)
+                if columns is not None:
+                    table = table.select(columns)
+                return table
             return pq.read_table(src, columns=columns)
 
     def _scan_table(
